@@ -17,6 +17,7 @@ from sim import core
 from sim import modelgen
 
 ENGINE = 'c06'
+FIXED_PLAN = True   # run index -> mode schedule; no runs beyond the plan
 SHRINK_BUDGET = (40, 420)
 PIPES = ['generalized', 'spring', 'positional']
 
